@@ -14,7 +14,7 @@ import (
 func init() {
 	register(&Prop{
 		ID:          "C09",
-		Explanation: "Decides the wiring of the lifetime threshold: encryption.Validate reports ok only if expiration==0 or the signed timestamp t (time.Unix of the integer parsed from the MAC-covered timestamp part) satisfies t.After(time.Now().Add(-expiration)) and t.Before(time.Now().Add(5 minutes)) with exactly those operands; every caller passes Cookie.Expire as the expiration; the timestamp signed into session and ticket cookies is *CreatedAt of the session being saved and SignedValue writes now.Unix(); SessionStore.Save implementations stamp CreatedAt only when it is unset; refreshSession stamps CreatedAtNow() on the session before re-saving it; MakeCookieFromOptions derives Max-Age from its expiration argument, which for session/ticket cookies is Cookie.Expire (CSRF: Cookie.CSRFExpire, deletions: a negative constant); the server-side entry's TTL is Cookie.Expire passed unchanged through ticket.saveSession -> Store.Save -> redis Set.",
+		Explanation: "Decides the wiring of the lifetime threshold: encryption.Validate reports ok only if expiration==0 or the signed timestamp t (time.Unix of the integer parsed from the MAC-covered timestamp part) satisfies t.After(time.Now().Add(-expiration)) and t.Before(time.Now().Add(5 minutes)) with exactly those operands; every caller passes Cookie.Expire as the expiration; the timestamp signed into session and ticket cookies is *CreatedAt of the session being saved and SignedValue writes now.Unix(); SessionStore.Save implementations stamp CreatedAt only when it is unset; refreshSession stamps CreatedAtNow() on the session before re-saving it; MakeCookieFromOptions derives Max-Age from its expiration argument, which for session/ticket cookies is Cookie.Expire (CSRF: Cookie.CSRFExpire, deletions: a negative constant); the server-side entry's TTL is Cookie.Expire passed unchanged through ticket.saveSession -> Store.Save -> redis Set. Added during the build: SessionStore.Save implementations stamp CreatedAt only when unset (R6); refreshSession resets the issue time only when the provider refreshed or reported ErrNotImplemented (R7); every cookie sent derives from the constructors that carry Max-Age (R8, shared with C18.R1).",
 		NotDecided:  "second-granularity/off-by-one semantics of time.After/Before and Unix truncation (values); behaviour of Redis TTLs.",
 		Run:         runC09,
 	})
@@ -41,6 +41,8 @@ func runC09(c *Ctx) {
 	r.Rule("R3-signed-timestamp", "the timestamp signed for session/ticket cookies is *CreatedAt of the saved session; SignedValue writes now.Unix()", 4)
 	r.Rule("R4-refresh-stamps", "refreshSession calls session.CreatedAtNow() before store.Save(session)", 1)
 	r.Rule("R5-maxage-ttl", "Max-Age from the expiration argument; session/ticket cookies pass Cookie.Expire; store TTL is Cookie.Expire passed unchanged", 15)
+	r.Rule("R7-stamp-only-on-refresh", "refreshSession resets CreatedAt only when the provider refreshed (or reported ErrNotImplemented)", 1)
+	r.Rule("R8-cookies-carry-maxage", "every cookie sent derives from MakeCookieFromOptions/copyCookie, which carry Max-Age (shared with C18.R1)", 9)
 	r.Rule("R6-save-keeps-stamp", "SessionStore.Save implementations stamp CreatedAt only when unset", 2)
 
 	rule := "R1-window"
@@ -276,6 +278,38 @@ func runC09(c *Ctx) {
 		}
 	}
 
+	// ---- R7 ---------------------------------------------------------------------------------
+	rule = "R7-stamp-only-on-refresh"
+	if a := c.c12Anchors(rule); a != nil && createdAtNow != nil {
+		n := 0
+		c.Walk(rule, a.rs, func(p *walk.Path) {
+			for _, st := range p.FindTop(walk.Static(createdAtNow), p.End()) {
+				n++
+				key := "stamp-needs-refresh|" + fnKey(a.rs)
+				rc, ok := Has(p, st.Idx, Need{M: walk.ThroughField(a.refresherF), Out: Called})
+				if !ok {
+					c.bad(rule, key, st.In, "the session's issue time is reset on a path that never asked the provider to refresh it", p, st.Idx)
+					continue
+				}
+				ek, _, _ := callErrDV(p, rc)
+				refreshed, known := p.ResultTruth(rc.DV(), 0, st.Idx)
+				switch {
+				case known && refreshed:
+					c.ok(rule, key, st.In, "the provider reported refreshed==true")
+				case hasErrorsIsAtom(p, st.Idx, ek, "providers.ErrNotImplemented", true):
+					c.ok(rule, key+"|not-implemented", st.In, "reviewed: providers without refresh support (ErrNotImplemented) reset the timer so that validation runs once per period")
+				default:
+					c.bad(rule, key, st.In, "the session's issue time is reset although the provider did not refresh it (refreshed is not known true, error is not ErrNotImplemented): an unrefreshed session's lifetime is extended past cookie-expire", p, st.Idx)
+				}
+			}
+		})
+		if n == 0 {
+			c.R.Unknown(rule, "stamp-needs-refresh|none", c.P.Pos(a.rs.Pos()), "refreshSession never stamps")
+		}
+	}
+	// session/ticket cookies reach the browser only through the constructors that carry Max-Age (shared with C18.R1)
+	runCookieConstructorRule(c, "R8-cookies-carry-maxage")
+
 	// ---- R5 ---------------------------------------------------------------------------------
 	rule = "R5-maxage-ttl"
 	mk := c.Fn(rule, "pkg/cookies.MakeCookieFromOptions")
@@ -291,7 +325,7 @@ func runC09(c *Ctx) {
 			key := "maxage|" + fnKey(mk)
 			var positive, known bool
 			for _, a := range p.Atoms(p.End()) {
-				if b, ok := a.DV.V.(*ssa.BinOp); ok && b.Op == token.GTR && b.X == expP {
+				if b, ok := a.DV.V.(*ssa.BinOp); ok && !a.IsNil && b.Op == token.GTR && p.Resolve(p.Op(b.X, a.DV)).V == ssa.Value(expP) {
 					if n, ok := ConstInt(b.Y); ok && n == 0 {
 						positive, known = a.Val, true
 					}
@@ -302,10 +336,12 @@ func runC09(c *Ctx) {
 				return
 			}
 			var stored ssa.Value
+			var storedDV walk.DV
 			for _, s := range p.Steps {
 				if st, ok := s.In.(*ssa.Store); ok {
 					if fa, ok := st.Addr.(*ssa.FieldAddr); ok && walk.FieldOf(fa.X.Type(), fa.Field) == maxAgeF {
-						stored = st.Val
+						storedDV = p.Resolve(p.StepOp(st.Val, s))
+						stored = storedDV.V
 					}
 				}
 			}
@@ -321,7 +357,8 @@ func runC09(c *Ctx) {
 			}
 			okWire := false
 			if cv, ok := stored.(*ssa.Convert); ok {
-				if call, ok := cv.X.(*ssa.Call); ok && call.Call.StaticCallee() != nil && call.Call.StaticCallee().Name() == "Seconds" && call.Call.Args[0] == expP {
+				x := p.Resolve(p.Op(cv.X, storedDV))
+				if call, ok := x.V.(*ssa.Call); ok && call.Call.StaticCallee() != nil && call.Call.StaticCallee().Name() == "Seconds" && p.Resolve(p.Op(call.Call.Args[0], x)).V == ssa.Value(expP) {
 					okWire = true
 				}
 			}
